@@ -364,6 +364,7 @@ class CallGraph:
         self.edges = defaultdict(set)     # caller path -> callee paths (resolved, local or not)
         self.sites = defaultdict(list)    # callee path -> [(caller fn, bi)]
         self.addr = defaultdict(set)      # fn path -> fn items / closures used as values
+        self.generic_edges = set()
         local_traits = defaultdict(list)  # trait method decl path -> local impl fns (for dyn fan-out)
         for p, f in facts.fns.items():
             tr = f.d.get("impl_trait")
@@ -392,6 +393,29 @@ class CallGraph:
                     if c.get("indirect"):
                         self._scan_op(p, c["indirect"])
         # closures are reachable from their parent when constructed there (handled by agg scan)
+        # generic dispatch through external code: an external callee instantiated at a local type may call
+        # any trait-impl method of that type (Into -> From::from, to_string -> Display::fmt, parse -> FromStr,
+        # sort/max -> Ord::cmp, ron/serde -> Serialize/Deserialize, clap -> FromStr of value types ...)
+        import re as _re
+        impls_of = defaultdict(list)      # local ADT path -> trait-impl fn paths
+        for p, f in facts.fns.items():
+            if f.d.get("impl_trait") and f.d.get("impl_self"):
+                for m in _re.findall(r"crate::[A-Za-z0-9_:]+", f.d["impl_self"]):
+                    impls_of[m].append(p)
+        self.impls_of = impls_of
+        for p, f in facts.fns.items():
+            for bi, b in enumerate(f.blocks):
+                t = b["t"]
+                if t[0] != "call": continue
+                c = t[1]
+                tgt = c.get("path") or c.get("decl")
+                if tgt in facts.fns: continue
+                texts = list(c.get("targs") or [])
+                for ty in texts:
+                    for m in set(_re.findall(r"crate::[A-Za-z0-9_:]+", ty)):
+                        for imp in impls_of.get(m, ()):
+                            if imp not in self.edges[p]:
+                                self.edges[p].add(imp); self.generic_edges.add((p, imp))
 
     def _scan_op(self, p, op):
         if op[0] == "c":
@@ -414,7 +438,7 @@ class CallGraph:
             for o in rv[2]: self._scan_op(p, o)
         elif k == "repeat": self._scan_op(p, rv[1])
 
-    def closure(self, roots, include_addr=True, stop=()):
+    def closure(self, roots, include_addr=True, stop=(), generic=True):
         """all function paths reachable from roots (local bodies expanded; external names kept as leaves)"""
         seen = set(); q = deque(roots); parent = {}
         while q:
@@ -423,6 +447,8 @@ class CallGraph:
             seen.add(p)
             if p in stop: continue
             nxt = set(self.edges.get(p, ()))
+            if not generic:
+                nxt = {n for n in nxt if (p, n) not in self.generic_edges}
             if include_addr: nxt |= self.addr.get(p, set())
             for n in nxt:
                 if n not in seen:
